@@ -274,7 +274,9 @@ def r09_3(prog, out):
     nid = A.cell("TopicState", "next_id")
     ws = [(bid, e) for bid in prog.facts.bodies for e in prog.effects(bid) if e.kind == "write" and not e.chain and e.touches(nid)]
     if not ws:
-        raise CheckBroken("no writer of the topic manager's next_id found")
+        out.violation("next_id:never-advanced", "", "the topic manager's next_id is never written: every topic gets the same internal id, so message ids "
+                      "(topic id << 32 | counter) repeat across topics")
+        ws = []
     for bid, e in ws:
         bi = prog.info(bid)
         k = increment_kind(bi, e)
@@ -468,3 +470,61 @@ def bit_layout(prog, out, ctor):
             out.holds(key, prog.loc(ctor), "id packs the components into disjoint bit ranges [%d,%d) and [%d,%d): injective" % (alo, alo + aw, clo, clo + cw))
     else:
         out.undecided(key, prog.loc(ctor), "id is not a two-component packing (%s)" % (top[0],))
+
+
+@rule("C09", "R09.4", "the id Publish returns and the one publish time of the batch are stored in the message before it is shared", floor=3)
+def r09_4(prog, out):
+    """The delivered id is `message.id` (R09.1); the returned id is what the publish step pushes to the response (R08.1).
+    They are the same value only if the step stamps the message: a setter that stores its id / time parameters into
+    TopicMessage.id / .published_at on every path, called on every pass of the per-message step before Arc::new."""
+    from actorlib import roles
+    A = prog.anchors
+    R = roles(prog)
+    tm = A.ty("TopicMessage")
+    id_cell, time_cell = A.cell("TopicMessage", "id"), A.cell("TopicMessage", "published_at")
+    # who writes the two fields (outside constructors, which build the whole struct)
+    writers = {}
+    for b in prog.facts.lib_bodies():
+        if b.file.startswith("/"):
+            continue
+        for e in prog.effects(b.id):
+            if e.kind == "write" and not e.chain and e.cells and e.cells[-1] in (id_cell, time_cell):
+                writers.setdefault(b.id, []).append(e)
+    if not writers:
+        out.violation("stamp", "", "no code stores an id into TopicMessage.id after construction: every delivered message carries the placeholder id, not the id "
+                      "Publish returned")
+        return
+    pid = R.publish_body()
+    stamped_in_publish = False
+    for wid, effs in sorted(writers.items()):
+        wi = prog.info(wid)
+        wb = wi.body
+        name = prog.short(wid)
+        for cell, label in ((id_cell, "id"), (time_cell, "published_at")):
+            es = [e for e in effs if e.cells[-1] == cell]
+            key = "stamp:%s:%s" % (name, label)
+            if not es:
+                if wid != pid and any(e.cells[-1] == (time_cell if cell == id_cell else id_cell) for e in effs):
+                    out.violation(key, prog.loc(wid), "%s stamps a message but does not store its %s: deliveries carry the placeholder value" % (name, label))
+                continue
+            ok_src = True
+            for e in es:
+                st = wi.stmt(*e.extra) if e.extra else None
+                src = wi.trace(st.rv.ops[0]) if st is not None and st.rv.ops else None
+                if src is None or src.kind == "const" or (src.kind == "agg"):
+                    ok_src = False
+            if not ok_src:
+                out.violation(key, wi.loc(es[0].bb), "TopicMessage.%s is overwritten with a constant / fresh value instead of the value handed in" % label)
+            elif wi.cfg.escapes(0, {e.bb for e in es}, after=False) is not None:
+                out.violation(key, wi.loc(es[0].bb), "a path through %s leaves TopicMessage.%s unset" % (name, label))
+            else:
+                out.holds(key, wi.loc(es[0].bb), "stores the %s it is given, on every path" % label)
+        # the stamp is applied by the publish step (directly, or by calling this setter)
+    ids_written = [e for e in prog.effects(pid) if e.kind == "write" and e.cells and e.cells[-1] == id_cell] + \
+                  [e for c in prog.facts.descendants(pid) for e in prog.effects(c) if e.kind == "write" and e.cells and e.cells[-1] == id_cell]
+    key = "publish-stamps:%s" % prog.short(pid)
+    if ids_written:
+        out.holds(key, prog.loc(pid), "the publish step stores the allocated id in each message")
+    else:
+        out.violation(key, prog.loc(pid), "the publish handler allocates and returns ids but never stores them in the messages: deliveries carry a different id "
+                      "than Publish returned")
